@@ -28,10 +28,24 @@ theorem step_frame (proj : Nat → Nat) (s : ES) (st : Step) :
       (∀ r, r < s.next → (step proj s st).owner r = s.owner r) := by
   cases st with
   | sub l m => exact ⟨Nat.le_refl _, fun _ _ => rfl, fun _ _ => rfl⟩
+  | vsub l m => exact ⟨Nat.le_refl _, fun _ _ => rfl, fun _ _ => rfl⟩
   | send e =>
     refine ⟨Nat.le_succ _, fun r hr => ?_, fun r hr => ?_⟩
     · exact pushCells_below _ _ _ _ hr
     · exact setOwner_below _ _ _ _ _ hr
+  | vsend e =>
+    refine ⟨Nat.le_succ _, fun r hr => ?_, fun r hr => ?_⟩
+    · exact pushCells_below _ _ _ _ hr
+    · exact setOwner_below _ _ _ _ _ hr
+  | dropIn i =>
+    simp only [step]
+    split
+    · exact ⟨Nat.le_refl _, fun _ _ => rfl, fun _ _ => rfl⟩
+    · split
+      · exact ⟨Nat.le_refl _, fun _ _ => rfl, fun _ _ => rfl⟩
+      · split
+        · exact ⟨Nat.le_refl _, fun _ _ => rfl, fun _ _ => rfl⟩
+        · exact ⟨Nat.le_refl _, fun _ _ => rfl, fun _ _ => rfl⟩
   | forward i =>
     simp only [step]
     split
@@ -84,11 +98,11 @@ theorem run_append (proj : Nat → Nat) (a b : List Step) : ∀ s : ES, run proj
 
 /-- The reachability invariant.  Every reference a pipeline holds is allocated; what sits in an inbox
 is a bus cell; what a consumer received is either a cell its own pipeline allocated, or — only for an
-unmasked backpressure subscriber — the bus cell itself. -/
+unmasked subscriber that is backpressured or subscribes to a Value — the bus cell itself. -/
 structure Inv (s : ES) : Prop where
   inbox : ∀ sb, sb ∈ s.subs → ∀ r, r ∈ sb.inbox → r < s.next ∧ s.owner r = none
   out : ∀ sb, sb ∈ s.subs → ∀ r, r ∈ sb.out →
-    r < s.next ∧ (s.owner r = some sb.idx ∨ (s.owner r = none ∧ sb.lossy = false ∧ sb.mask = false))
+    r < s.next ∧ (s.owner r = some sb.idx ∨ (s.owner r = none ∧ sb.mask = false ∧ (sb.lossy = false ∨ sb.value = true)))
   idx : s.subs.map (·.idx) = List.range s.subs.length
 
 theorem Inv.init : Inv ES.init :=
@@ -123,9 +137,10 @@ theorem mem_replaceSub {subs : List Sub} {sb : Sub} {f : Sub → Sub} {y : Sub} 
 the generic case for steps that may allocate `k` cells owned by `o` -/
 theorem Inv.alloc_replace {s : ES} (hi : Inv s) (sb : Sub) (hsb : sb ∈ s.subs) (cells : List Ev) (f : Sub → Sub)
     (hidx : ∀ x, (f x).idx = x.idx) (hlossy : (f sb).lossy = sb.lossy) (hmask : (f sb).mask = sb.mask)
+    (hvalue : (f sb).value = sb.value)
     (hin : ∀ r, r ∈ (f sb).inbox → r ∈ sb.inbox)
     (hout : ∀ r, r ∈ (f sb).out → r ∈ sb.out ∨ (s.next ≤ r ∧ r < s.next + cells.length) ∨
-      (r ∈ sb.inbox ∧ sb.lossy = false ∧ sb.mask = false)) :
+      (r ∈ sb.inbox ∧ sb.mask = false ∧ (sb.lossy = false ∨ sb.value = true))) :
     Inv { s with heap := pushCells s.heap s.next cells, owner := setOwner s.owner s.next cells.length (some sb.idx),
                  next := s.next + cells.length, subs := replaceSub s.subs sb f } := by
   refine ⟨?_, ?_, ?_⟩
@@ -148,7 +163,7 @@ theorem Inv.alloc_replace {s : ES} (hi : Inv s) (sb : Sub) (hsb : sb ∈ s.subs)
       · have := hi.out sb hsb r h1
         refine ⟨by simp only; omega, ?_⟩
         simp only
-        rw [setOwner_below _ _ _ _ _ this.1, hidx, hlossy, hmask]
+        rw [setOwner_below _ _ _ _ _ this.1, hidx, hlossy, hmask, hvalue]
         exact this.2
       · refine ⟨by simp only; omega, Or.inl ?_⟩
         simp only
@@ -156,7 +171,7 @@ theorem Inv.alloc_replace {s : ES} (hi : Inv s) (sb : Sub) (hsb : sb ∈ s.subs)
       · have := hi.inbox sb hsb r h3.1
         refine ⟨by simp only; omega, Or.inr ?_⟩
         simp only
-        rw [setOwner_below _ _ _ _ _ this.1, hlossy, hmask]
+        rw [setOwner_below _ _ _ _ _ this.1, hlossy, hmask, hvalue]
         exact ⟨this.2, h3.2.1, h3.2.2⟩
   · simp only
     rw [replaceSub_idx _ _ _ hidx, replaceSub_length]
@@ -165,10 +180,11 @@ theorem Inv.alloc_replace {s : ES} (hi : Inv s) (sb : Sub) (hsb : sb ∈ s.subs)
 /-- the same without allocation -/
 theorem Inv.replace {s : ES} (hi : Inv s) (sb : Sub) (hsb : sb ∈ s.subs) (f : Sub → Sub)
     (hidx : ∀ x, (f x).idx = x.idx) (hlossy : (f sb).lossy = sb.lossy) (hmask : (f sb).mask = sb.mask)
+    (hvalue : (f sb).value = sb.value)
     (hin : ∀ r, r ∈ (f sb).inbox → r ∈ sb.inbox)
-    (hout : ∀ r, r ∈ (f sb).out → r ∈ sb.out ∨ (r ∈ sb.inbox ∧ sb.lossy = false ∧ sb.mask = false)) :
+    (hout : ∀ r, r ∈ (f sb).out → r ∈ sb.out ∨ (r ∈ sb.inbox ∧ sb.mask = false ∧ (sb.lossy = false ∨ sb.value = true))) :
     Inv { s with subs := replaceSub s.subs sb f } := by
-  have h := Inv.alloc_replace hi sb hsb [] f hidx hlossy hmask hin (fun r hr => by
+  have h := Inv.alloc_replace hi sb hsb [] f hidx hlossy hmask hvalue hin (fun r hr => by
     rcases hout r hr with h1 | h2
     · exact Or.inl h1
     · exact Or.inr (Or.inr h2))
@@ -200,13 +216,28 @@ theorem step_inv (proj : Nat → Nat) (s : ES) (st : Step) (hi : Inv s) : Inv (s
       · subst hy; simp at hr
     · simp only [step, List.map_append, List.length_append, List.map_cons, List.map_nil, List.length_cons, List.length_nil]
       rw [hi.idx, List.range_succ]
+  | vsub l m =>
+    refine ⟨?_, ?_, ?_⟩
+    · intro y hy r hr
+      simp only [step, List.mem_append, List.mem_singleton] at hy
+      rcases hy with hy | hy
+      · exact hi.inbox y hy r hr
+      · subst hy; simp at hr
+    · intro y hy r hr
+      simp only [step, List.mem_append, List.mem_singleton] at hy
+      rcases hy with hy | hy
+      · exact hi.out y hy r hr
+      · subst hy; simp at hr
+    · simp only [step, List.map_append, List.length_append, List.map_cons, List.map_nil, List.length_cons, List.length_nil]
+      rw [hi.idx, List.range_succ]
   | send e =>
     refine ⟨?_, ?_, ?_⟩
     · intro y hy r hr
       simp only [step, List.mem_map] at hy
       obtain ⟨x, hx, rfl⟩ := hy
-      simp only [List.mem_append, List.mem_singleton] at hr
-      rcases hr with hr | hr
+      have key : r ∈ x.inbox ∨ r = s.next := by
+        split at hr <;> first | exact Or.inl hr | (simp only [List.mem_append, List.mem_singleton] at hr; exact hr)
+      rcases key with hr | hr
       · have := hi.inbox x hx r hr
         exact ⟨by simp only [step]; omega, by simp only [step]; rw [setOwner_below _ _ _ _ _ this.1]; exact this.2⟩
       · subst hr
@@ -214,13 +245,45 @@ theorem step_inv (proj : Nat → Nat) (s : ES) (st : Step) (hi : Inv s) : Inv (s
     · intro y hy r hr
       simp only [step, List.mem_map] at hy
       obtain ⟨x, hx, rfl⟩ := hy
-      have := hi.out x hx r hr
+      have hr' : r ∈ x.out := by split at hr <;> exact hr
+      have := hi.out x hx r hr'
       refine ⟨by simp only [step]; omega, ?_⟩
       simp only [step]
       rw [setOwner_below _ _ _ _ _ this.1]
-      exact this.2
+      split <;> exact this.2
     · simp only [step, List.map_map, List.length_map]
-      exact hi.idx
+      rw [← hi.idx]
+      apply List.map_congr_left
+      intro x _
+      simp only [Function.comp]
+      split <;> rfl
+  | vsend e =>
+    refine ⟨?_, ?_, ?_⟩
+    · intro y hy r hr
+      simp only [step, List.mem_map] at hy
+      obtain ⟨x, hx, rfl⟩ := hy
+      have key : r ∈ x.inbox ∨ r = s.next := by
+        split at hr <;> first | exact Or.inl hr | (simp only [List.mem_append, List.mem_singleton] at hr; exact hr)
+      rcases key with hr | hr
+      · have := hi.inbox x hx r hr
+        exact ⟨by simp only [step]; omega, by simp only [step]; rw [setOwner_below _ _ _ _ _ this.1]; exact this.2⟩
+      · subst hr
+        exact ⟨by simp only [step]; omega, by simp only [step]; exact setOwner_at _ _ _ _ _ (Nat.le_refl _) (by omega)⟩
+    · intro y hy r hr
+      simp only [step, List.mem_map] at hy
+      obtain ⟨x, hx, rfl⟩ := hy
+      have hr' : r ∈ x.out := by split at hr <;> exact hr
+      have := hi.out x hx r hr'
+      refine ⟨by simp only [step]; omega, ?_⟩
+      simp only [step]
+      rw [setOwner_below _ _ _ _ _ this.1]
+      split <;> exact this.2
+    · simp only [step, List.map_map, List.length_map]
+      rw [← hi.idx]
+      apply List.map_congr_left
+      intro x _
+      simp only [Function.comp]
+      split <;> rfl
   | forward i =>
     simp only [step]
     split
@@ -234,7 +297,7 @@ theorem step_inv (proj : Nat → Nat) (s : ES) (st : Step) (hi : Inv s) : Inv (s
         · exact hi
         · rename_i r rest hib
           split
-          · exact Inv.alloc_replace hi sb hsb [projEv proj (s.heap r)] _ (fun _ => rfl) rfl rfl
+          · exact Inv.alloc_replace hi sb hsb [projEv proj (s.heap r)] _ (fun _ => rfl) rfl rfl rfl
               (fun x hx => by rw [hib]; exact List.mem_cons_of_mem _ hx)
               (fun x hx => by
                 simp only [List.mem_append, List.mem_singleton] at hx
@@ -242,7 +305,7 @@ theorem step_inv (proj : Nat → Nat) (s : ES) (st : Step) (hi : Inv s) : Inv (s
                 · exact Or.inl hx
                 · subst hx; exact Or.inr (Or.inl ⟨Nat.le_refl _, by simp⟩))
           · rename_i hm
-            exact Inv.replace hi sb hsb _ (fun _ => rfl) rfl rfl
+            exact Inv.replace hi sb hsb _ (fun _ => rfl) rfl rfl rfl
               (fun x hx => by rw [hib]; exact List.mem_cons_of_mem _ hx)
               (fun x hx => by
                 simp only [List.mem_append, List.mem_singleton] at hx
@@ -250,8 +313,21 @@ theorem step_inv (proj : Nat → Nat) (s : ES) (st : Step) (hi : Inv s) : Inv (s
                 · exact Or.inl hx
                 · subst hx
                   refine Or.inr ⟨by rw [hib]; exact List.mem_cons_self, ?_, ?_⟩
-                  · cases h : sb.lossy <;> simp_all
-                  · cases h : sb.mask <;> simp_all)
+                  · cases h : sb.mask <;> simp_all
+                  · cases h1 : sb.lossy <;> cases h2 : sb.value <;> simp_all)
+  | dropIn i =>
+    simp only [step]
+    split
+    · exact hi
+    · rename_i sb hf
+      have hsb := find_mem hf
+      split
+      · exact hi
+      · split
+        · rename_i r1 r2 rest hib
+          exact Inv.replace hi sb hsb _ (fun _ => rfl) rfl rfl rfl
+            (fun x hx => by rw [hib]; exact List.mem_cons_of_mem _ hx) (fun x hx => Or.inl hx)
+        · exact hi
   | mergeIn i =>
     simp only [step]
     split
@@ -263,7 +339,7 @@ theorem step_inv (proj : Nat → Nat) (s : ES) (st : Step) (hi : Inv s) : Inv (s
       · split
         · exact hi
         · rename_i r rest hib
-          exact Inv.replace hi sb hsb _ (fun _ => rfl) rfl rfl
+          exact Inv.replace hi sb hsb _ (fun _ => rfl) rfl rfl rfl
             (fun x hx => by rw [hib]; exact List.mem_cons_of_mem _ hx) (fun x hx => Or.inl hx)
   | emit i =>
     simp only [step]
@@ -277,13 +353,13 @@ theorem step_inv (proj : Nat → Nat) (s : ES) (st : Step) (hi : Inv s) : Inv (s
         · exact hi
         · rename_i c rest hp
           split
-          · exact Inv.alloc_replace hi sb hsb [c, projEv proj c] _ (fun _ => rfl) rfl rfl (fun x hx => hx)
+          · exact Inv.alloc_replace hi sb hsb [c, projEv proj c] _ (fun _ => rfl) rfl rfl rfl (fun x hx => hx)
               (fun x hx => by
                 simp only [List.mem_append, List.mem_singleton] at hx
                 rcases hx with hx | hx
                 · exact Or.inl hx
                 · subst hx; exact Or.inr (Or.inl ⟨by omega, by simp⟩))
-          · exact Inv.alloc_replace hi sb hsb [c] _ (fun _ => rfl) rfl rfl (fun x hx => hx)
+          · exact Inv.alloc_replace hi sb hsb [c] _ (fun _ => rfl) rfl rfl rfl (fun x hx => hx)
               (fun x hx => by
                 simp only [List.mem_append, List.mem_singleton] at hx
                 rcases hx with hx | hx
